@@ -481,6 +481,46 @@ pub fn run_c14(tier: &str, parity_odd: bool, shard: usize, nshards: usize, rep: 
         let _ = oracle::end_execution();
         let _ = oracle::take_violation();
     }
+    // ---- lengths of 2^31 and beyond (64-bit targets): zero-filled static data in reserved address space compared with
+    // short strings - slice comparison looks at the common prefix and then at the lengths, so nothing is walked
+    let mut giant_pairs = 0u64;
+    #[cfg(target_pointer_width = "64")]
+    if shard == 0 {
+        let map_len = (1usize << 32) + (1usize << 31) + 4096;
+        if let Some(base) = oracle::sys::map_zero_readonly(map_len) {
+            for glen in [(1usize << 31) - 1, 1usize << 31, (1usize << 31) + 1, (1usize << 32) - 1, 1usize << 32, (1usize << 32) + 1, (1usize << 32) + (1usize << 31)] {
+                let g: &'static [u8] = unsafe { core::slice::from_raw_parts(base, glen) };
+                for y in [vec![], vec![0u8], vec![0u8, 0, 1], vec![1u8]] {
+                    oracle::begin_execution(parity_odd);
+                    giant_pairs += 1;
+                    cx.pair = format!("x = {} zero bytes (static) vs y={:02x?}", glen, y);
+                    oracle::sys::set_crash_note(&cx.pair);
+                    let bg = oracle::subject(|| Bytes::from_static(g));
+                    let by = oracle::subject(|| Bytes::copy_from_slice(&y));
+                    let my = oracle::subject(|| BytesMut::from(&y[..]));
+                    cx.ord("Bytes vs Bytes", &bg, &by, g, &y);
+                    cx.ord("Bytes vs Bytes", &by, &bg, &y, g);
+                    both_orders!(cx, "Bytes", &bg, g, "[u8]", &y[..], &y);
+                    both_orders!(cx, "Bytes", &bg, g, "Vec<u8>", &y, &y);
+                    cx.eq_only("Bytes vs BytesMut (eq)", &bg, &my, g, &y);
+                    cx.eq_only("BytesMut vs Bytes (eq)", &my, &bg, &y, g);
+                    cx.rep.evaluations += 2;
+                    if oracle::subject(|| bg.cmp(&by)) != g.cmp(&y[..]) || oracle::subject(|| by.cmp(&bg)) != y[..].cmp(g) {
+                        cx.fail("Ord for Bytes", "cmp", format!("{:?}", bg.cmp(&by)), format!("{:?}", g.cmp(&y[..])));
+                    }
+                    oracle::subject(|| {
+                        drop(bg);
+                        drop(by);
+                        drop(my);
+                    });
+                    let _ = oracle::end_execution();
+                    let _ = oracle::take_violation();
+                }
+            }
+            oracle::sys::unmap(base, map_len);
+        }
+    }
+    cx.rep.extra_num("giant_length_pairs", giant_pairs);
     cx.rep.extra_num("long_string_pairs", long_pairs);
     let rows = cx.rows.len() as u64;
     let outcomes = cx.outcomes.len() as u64;
